@@ -385,6 +385,13 @@ impl SocksResponse {
     }
     async fn read_v4<IO: RW>(socket: &mut IO) -> Result<Self, Error> {
         let cmd = socket.read_u8().await.context("read cmd")?;
+        // a SOCKS4 reply says 90 for "request granted" (91..93: rejected); keep the v5 convention that 0 means success,
+        // as write_v4 does in the other direction
+        let cmd = match cmd {
+            90 => SOCKS_REPLY_OK,
+            0 => SOCKS_REPLY_GENERAL_FAILURE,
+            other => other,
+        };
         let dport = socket.read_u16().await.context("read port")?;
         let dst = socket.read_u32().await.context("read dst")?;
         let target = (dst, dport).into();
